@@ -9,7 +9,8 @@ import KM.Gen.C14
 (b) `validateUserTOTP` (cmd/keymasterd/2fa_totp.go): the per-user limiter state
     `totpRateLimitInfo` plus `profile.LastSuccessfullTOTPCounter`, with the order of tests of the Go
     code.  Time is in nanoseconds (`time.Time` resolution).  Whether the submitted code matches an
-    enabled device is an input (`Attempt.correct`), as is the 30-second counter of the `t` argument. -/
+    enabled device, and for which time step (`Attempt.matched`), is an input, as is the 30-second
+    counter of the `t` argument. -/
 namespace KM.RateLimit
 
 /-! ## (a) token bucket -/
@@ -144,19 +145,30 @@ deriving DecidableEq, Repr
 def Totp.init : Totp := ⟨goZeroTime, 0, goZeroTime, goZeroTime, 0⟩
 
 /-- one call `validateUserTOTP(user, code, t)` at wall time `now`; `counter = ⌊t.Unix()/30⌋`;
-`correct`: the code matches one enabled device -/
+`matched`: the result of `totpMatchedCounter` for the enabled device whose secret the code fits —
+the time step (`counter`, `counter-1` or `counter+1`) the code belongs to, `none` when it fits no
+enabled device -/
 structure Attempt where
   now : Int
   counter : Int
-  correct : Bool
+  matched : Option Int
 deriving DecidableEq, Repr
+
+/-- the device loop finds a device for which `valid && matchedCounter > LastSuccessfullTOTPCounter` -/
+def fresh (s : Totp) (a : Attempt) : Bool :=
+  match a.matched with
+  | some m => decide (s.lastSuccCounter < m)
+  | none => false
+
+/-- the step that is stored on acceptance -/
+def matchedOr (a : Attempt) : Int := a.matched.getD a.counter
 
 inductive Outcome
   | spaced     -- less than 2 s after the previous check: returns false, nothing written
   | locked     -- inside the lock-out: returns false (lastCheckTime already written)
   | replay     -- a code was already accepted in this 30 s period: returns false
-  | accepted   -- evaluated, matched: returns true
-  | rejected   -- evaluated, no match: returns false, failure recorded
+  | accepted   -- evaluated, matched a step later than the last accepted one: returns true
+  | rejected   -- evaluated, no match or a step already used / older: returns false, failure recorded
 deriving DecidableEq, Repr
 
 def Outcome.evaluated : Outcome → Bool
@@ -183,9 +195,9 @@ def stepWith (lockF : Totp → Int → Int) (s : Totp) (a : Attempt) : Totp × O
   if s.lastCheck + spacingNs > a.now then (s, .spaced)
   else if s.lockoutExp > a.now then ({ s with lastCheck := a.now }, .locked)
   else if s.lastSuccCounter = a.counter then ({ s with lastCheck := a.now }, .replay)
-  else if a.correct then
+  else if fresh s a then
     ({ lastCheck := a.now, failCount := 0, lastFail := s.lastFail, lockoutExp := a.now,
-       lastSuccCounter := a.counter }, .accepted)
+       lastSuccCounter := matchedOr a }, .accepted)
   else
     ({ lastCheck := a.now, failCount := fcNext s a.now, lastFail := a.now,
        lockoutExp := lockF s a.now, lastSuccCounter := s.lastSuccCounter }, .rejected)
@@ -206,10 +218,11 @@ structure Event (U : Type) where
   user : U
   now : Int
   out : Outcome
+  matched : Option Int := none
 
 def stepM {U : Type} [DecidableEq U] (f : Totp → Attempt → Totp × Outcome) (m : U → Totp)
     (op : U × Attempt) : (U → Totp) × Event U :=
-  (upd m op.1 (f (m op.1) op.2).1, ⟨op.1, op.2.now, (f (m op.1) op.2).2⟩)
+  (upd m op.1 (f (m op.1) op.2).1, ⟨op.1, op.2.now, (f (m op.1) op.2).2, op.2.matched⟩)
 
 /-- the observable history of a run -/
 def traceM {U : Type} [DecidableEq U] (f : Totp → Attempt → Totp × Outcome) :
